@@ -2,7 +2,6 @@ package checks
 
 import (
 	"bytes"
-	"encoding/json"
 	"fmt"
 	"sort"
 
@@ -12,7 +11,7 @@ import (
 )
 
 func init() {
-	All["C14"] = Check{Level: "model_checking", Run: runC14, Replay: func(kind string, c json.RawMessage) (string, bool) { return nhReplayCmd(c) }}
+	All["C14"] = Check{Level: "model_checking", Run: runC14, Replay: nhReplayAny}
 	nhChecks["c14"] = c14Def
 }
 
@@ -177,6 +176,17 @@ func runC14(r *ev.Run, thorough bool) int {
 	}
 	n := nhRunPlans(r, "C14", "c14", plans,
 		"frozen virtual clock: five application bundles with identical source and creation time (two of them clock-less) submitted via SendBundle and via the agent path, two received bundles whose reception reports the node originates in the same millisecond; BFS over submissions, receptions, peers, send outcomes, retry ticks and restart; in every state the mapping bundle <-> ID on the wire is a bijection, every untransmitted submission has its own store record under the ID it carries, and each (re)transmission uses the stored ID",
-		[]string{"concurrent submissions are explored by the schedule exploration below"})
+		[]string{"E3: 2 (thorough: also 3) threads inside SendBundle at once with identical source and creation time, all schedules up to a preemption bound (schedule points: IdKeeper mutex, store operations)"},
+		func() int {
+			bound, budget := 2, 2000
+			if thorough {
+				bound, budget = 3, 80000
+			}
+			n := nhSchedRun(r, "C14", nhConcArg{Algo: "epidemic", Mode: "submit", N: 2}, bound, budget)
+			if thorough {
+				n += nhSchedRun(r, "C14", nhConcArg{Algo: "epidemic", Mode: "submit", N: 3}, 2, budget)
+			}
+			return n
+		})
 	return n
 }
